@@ -13,6 +13,12 @@ Supported (see DESIGN 2.2, mode 1/2):
               P[0] / P[1] on tuple parameters, np.exp log sqrt sin cos tan tanh arcsin arccos arctan arctan2
               hypot deg2rad rad2deg radians divide abs real, np.ones(np.shape(x)) (broadcast idiom = 1),
               x.ravel() / x.copy() (identity on scalars), calls of translated functions and of function parameters
+  complex     (spec "complex": [params]) a complex parameter p is the pair of reals p_re, p_im; + - * / and unary - on
+              complex values are written out on the pairs ((a+ib)/(c+id) = ((ac+bd) + i(bc-ad))/(cc+dd)); a local bound
+              to a complex value becomes the two lets x_re, x_im (numerator/denominator of a complex quotient are bound
+              first as x_n_*, x_d_*); a returned complex is the pair (re, im); a complex value anywhere else (function
+              argument other than a complex parameter of a translated callee, power, comparison) is Untranslatable.
+              spec "calls": {callee: variant} picks the specialisation of a translated callee (e.g. snell_complex_n2)
 """
 import ast
 import re
@@ -67,6 +73,7 @@ class Fn:
         self.masks = {}
         self.used_consts = set()
         self.reduction = None
+        self.rettype = None       # set when complex values are returned (pairs of reals)
         self.prefix = []          # let-bindings in force (so that guards can mention locals)
         self.skip = [re.compile(p) for p in self.spec.get("skip_patterns", ())]
         self.skipped = [0] * len(self.skip)
@@ -80,6 +87,8 @@ class Fn:
             return number(n.value)
         if isinstance(n, ast.Name):
             if n.id in env:
+                if not isinstance(env[n.id], str):
+                    self.fail(n, f"complex value {n.id} used where a real is expected")
                 return env[n.id]
             self.fail(n, f"unknown name {n.id}")
         if isinstance(n, ast.Attribute):
@@ -111,6 +120,87 @@ class Fn:
         if isinstance(n, ast.Call):
             return self.call(n, env)
         self.fail(n, f"expression {type(n).__name__}")
+
+    # ---------------------------------------------------------------- complex values (pairs of reals)
+    def is_cx(self, n, env):
+        """Does the expression denote a complex value (syntactically: it mentions a complex parameter or local)?"""
+        if isinstance(n, ast.Name):
+            if n.id in env:
+                return not isinstance(env[n.id], str)
+            return n.id in self.spec.get("complex", ())
+        if isinstance(n, ast.UnaryOp):
+            return self.is_cx(n.operand, env)
+        if isinstance(n, ast.BinOp):
+            return self.is_cx(n.left, env) or self.is_cx(n.right, env)
+        return False
+
+    def cexpr(self, n, env, binds, hint):
+        """Returns (re, im) as Coq terms; im is None for a real value. Lets needed for quotients are appended to binds."""
+        if not self.is_cx(n, env):
+            return self.expr(n, env), None
+        if isinstance(n, ast.Name):
+            if n.id in env:
+                return env[n.id][1], env[n.id][2]
+            return f"{ident(n.id)}_re", f"{ident(n.id)}_im"
+        if isinstance(n, ast.UnaryOp):
+            if isinstance(n.op, ast.UAdd):
+                return self.cexpr(n.operand, env, binds, hint)
+            if isinstance(n.op, ast.USub):
+                a, b = self.cexpr(n.operand, env, binds, hint)
+                return f"(- {a})", f"(- {b})"
+            self.fail(n, "unary operator on a complex value")
+        if isinstance(n, ast.BinOp):
+            op = type(n.op)
+            if op not in (ast.Add, ast.Sub, ast.Mult, ast.Div):
+                self.fail(n, f"operator {op.__name__} on a complex value")
+            (a, b), (c, d) = self.cexpr(n.left, env, binds, hint), self.cexpr(n.right, env, binds, hint)
+            if op in (ast.Add, ast.Sub):
+                o = "+" if op is ast.Add else "-"
+                if d is None:
+                    return f"({a} {o} {c})", b
+                if b is None:
+                    return f"({a} {o} {c})", (d if op is ast.Add else f"(- {d})")
+                return f"({a} {o} {c})", f"({b} {o} {d})"
+            if op is ast.Mult:
+                if d is None:
+                    return f"({a} * {c})", f"({b} * {c})"
+                if b is None:
+                    return f"({a} * {c})", f"({a} * {d})"
+                return f"(({a} * {c}) - ({b} * {d}))", f"(({a} * {d}) + ({b} * {c}))"
+            if d is None:                                   # complex / real
+                return f"({a} / {c})", f"({b} / {c})"
+            # quotient with a complex denominator: bind numerator and denominator first
+            k = sum(1 for x in binds if x[0].startswith(f"{hint}_d")) // 2
+            sfx = "" if k == 0 else str(k + 1)
+            nr, ni, dr, di = (f"{hint}_n{sfx}_re", f"{hint}_n{sfx}_im", f"{hint}_d{sfx}_re", f"{hint}_d{sfx}_im")
+            binds.append((nr, a))
+            if b is not None:
+                binds.append((ni, b))
+            binds.append((dr, c))
+            binds.append((di, d))
+            den = f"(({dr} * {dr}) + ({di} * {di}))"
+            if b is None:
+                return f"(({nr} * {dr}) / {den})", f"((- ({nr} * {di})) / {den})"
+            return f"((({nr} * {dr}) + ({ni} * {di})) / {den})", f"((({ni} * {dr}) - ({nr} * {di})) / {den})"
+        self.fail(n, f"complex expression {type(n).__name__}")
+
+    def let_complex(self, pyname, v, rest, env):
+        c = ident(pyname)
+        binds = []
+        re_, im_ = self.cexpr(v, env, binds, c)
+        binds += [(f"{c}_re", re_), (f"{c}_im", im_)]
+        taken = {x for x in env.values() if isinstance(x, str)} | {y for x in env.values() if not isinstance(x, str) for y in x[1:]}
+        for nm, _ in binds:
+            if nm in taken or any(f"let {nm} :=" in p for p in self.prefix):
+                self.fail(v, f"name clash for the complex local {nm}")
+        env2 = dict(env)
+        env2[pyname] = ("cx", f"{c}_re", f"{c}_im")
+        out = [f"let {nm} := {val} in" for nm, val in binds]
+        self.prefix += out
+        try:
+            return "\n  ".join(out) + "\n  " + self.body(rest, env2)
+        finally:
+            del self.prefix[-len(out):]
 
     def power(self, n, env):
         base = self.expr(n.left, env)
@@ -158,7 +248,7 @@ class Fn:
                 self.reduction = a
                 return self.expr(args[0], env)
             if a in ("real", "imag") and len(args) == 1 and isinstance(args[0], ast.Name) \
-                    and args[0].id in self.spec.get("complex", ()):
+                    and args[0].id in self.spec.get("complex", ()) and args[0].id not in env:
                 return f"{ident(args[0].id)}_{'re' if a == 'real' else 'im'}"
             if a == "real" and len(args) == 1 and self.spec.get("real"):
                 return self.expr(args[0], env)
@@ -182,6 +272,9 @@ class Fn:
         self.fail(n, f"call {ast.unparse(f)}")
 
     def call_translated(self, n, name, env):
+        name = self.spec.get("calls", {}).get(name, name)
+        if name not in self.mod.sigs:
+            self.fail(n, f"call of untranslated function {name}")
         sig = self.mod.sigs[name]
         vals = {}
         pos = list(n.args)
@@ -209,6 +302,11 @@ class Fn:
                         out.append(self.mod.sigs[a.id]["coqname"])
                     else:
                         self.fail(n, "function argument")
+                elif kind == "complex":
+                    if isinstance(a, ast.Name) and self.is_cx(a, env):
+                        out += list(self.cexpr(a, env, [], ident(a.id)))
+                    else:
+                        self.fail(n, f"argument {p}: the callee expects a complex value given by name")
                 elif kind == "tuple":
                     if isinstance(a, ast.Name) and a.id in self.tuple_params:
                         out += [f"{ident(a.id)}_{i}" for i in range(self.tuple_params[a.id])]
@@ -261,8 +359,23 @@ class Fn:
         if isinstance(s, ast.Return):
             if s.value is None:
                 self.fail(s, "bare return")
+            if isinstance(s.value, ast.Tuple) and any(self.is_cx(e, env) for e in s.value.elts):
+                parts, tys = [], []
+                for e in s.value.elts:
+                    if not isinstance(e, ast.Name):
+                        self.fail(s, "complex values are returned by name")
+                    a, b = self.cexpr(e, env, [], "")
+                    parts.append(a if b is None else f"({a}, {b})")
+                    tys.append("R" if b is None else "(R * R)")
+                self.rettype = " * ".join(tys)
+                return "(" + ", ".join(parts) + ")"
             if isinstance(s.value, ast.Tuple):
                 return "(" + ", ".join(self.expr(e, env) for e in s.value.elts) + ")"
+            if self.is_cx(s.value, env):
+                if not isinstance(s.value, ast.Name):
+                    self.fail(s, "complex values are returned by name")
+                self.rettype = "R * R"
+                return "(" + ", ".join(self.cexpr(s.value, env, [], "")) + ")"
             if isinstance(s.value, ast.IfExp) and ast.unparse(s.value.test) == "is_float_input":
                 return self.expr(s.value.orelse, env)        # `return x[0] if is_float_input else x`
             return self.expr(s.value, env)
@@ -271,7 +384,7 @@ class Fn:
             return self.body(rest, env)
         if isinstance(s, ast.AugAssign) and isinstance(s.target, ast.Name):
             op = {ast.Add: "+", ast.Sub: "-", ast.Mult: "*", ast.Div: "/"}.get(type(s.op))
-            if not op or s.target.id not in env:
+            if not op or s.target.id not in env or not isinstance(env[s.target.id], str) or self.is_cx(s.value, env):
                 self.fail(s, "augmented assignment")
             v = f"({env[s.target.id]} {op} {self.expr(s.value, env)})"
             return self.let(s.target.id, v, rest, env)
@@ -310,11 +423,13 @@ class Fn:
         # mask assignment: X[m] = Y[m]
         if isinstance(t, ast.Subscript) and isinstance(t.value, ast.Name) and isinstance(t.slice, ast.Name) \
                 and t.slice.id in self.masks and isinstance(v, ast.Subscript) and isinstance(v.slice, ast.Name) \
-                and v.slice.id == t.slice.id and t.value.id in env:
+                and v.slice.id == t.slice.id and isinstance(env.get(t.value.id), str):
             cnode, cenv = self.masks[t.slice.id]
             dec, _ = self.cond(cnode, cenv)
             val = f"(if {dec} then {self.expr(v.value, env)} else {env[t.value.id]})"
             return self.let(t.value.id, val, rest, env)
+        if isinstance(t, ast.Name) and self.is_cx(v, env):
+            return self.let_complex(t.id, v, rest, env)
         if isinstance(t, ast.Name):
             return self.let(t.id, self.expr(v, env), rest, env)
         if isinstance(t, ast.Tuple) and all(isinstance(e, ast.Name) for e in t.elts):
@@ -336,7 +451,7 @@ class Fn:
                 finally:
                     del self.prefix[-len(out):]
             if isinstance(v, ast.Call) and isinstance(v.func, ast.Name) and v.func.id in self.mod.sigs:
-                if self.mod.sigs[v.func.id]["arity"] != len(names):
+                if self.mod.sigs[v.func.id]["arity"] != len(names) or self.mod.sigs[v.func.id].get("rettype"):
                     self.fail(s, "tuple arity")
                 env2 = dict(env)
                 cs = []
@@ -464,7 +579,7 @@ class Fn:
         arity = self.return_arity(node)
         return {"coqname": ident(self.name), "pyparams": pyparams, "kinds": kinds, "defaults": coqdefaults,
                 "coqparams": coqparams, "term": term, "arity": arity, "guards": self.guards, "notes": self.notes,
-                "lineno": node.lineno, "reduction": self.reduction}
+                "lineno": node.lineno, "reduction": self.reduction, "rettype": self.rettype}
 
     @staticmethod
     def return_arity(node):
@@ -510,7 +625,7 @@ class Module:
 
 
 def render(r, rettype=None):
-    ty = rettype or ("R" if r["arity"] == 1 else " * ".join(["R"] * (r["arity"] or 1)))
+    ty = rettype or r.get("rettype") or ("R" if r["arity"] == 1 else " * ".join(["R"] * (r["arity"] or 1)))
     params = " ".join(p if p.startswith("(") else f"({p} : R)" for p in r["coqparams"])
     out = [f"(* line {r['lineno']} *)"]
     for note in r["notes"]:
